@@ -205,3 +205,13 @@ Fixpoint bad_indices {A} (f : A -> bool) (l : list A) (i : nat) : list nat :=
   | [] => []
   | x :: r => if f x then bad_indices f r (S i) else i :: bad_indices f r (S i)
   end.
+
+(* `record --host H -d DIR`: DIR is only a local staging directory; after a successful run the
+   recorder sends its content and removes the directory it created itself (cmds/record.c
+   write_symbol_files: remove_directory(opts->dirname)); when create_directory fails nothing else
+   happens (command_record returns -1 at once). *)
+Definition record_run_host (guarded : bool) (w : world) (r : run) : world * result :=
+  match create_directory guarded (r_opts r) w with
+  | (w', OK) => ({| dir := None; old := old w' |}, OK)
+  | (w', Error) => (w', Error)
+  end.
